@@ -116,11 +116,32 @@ func softCodes(seq []byte) string {
 	return ""
 }
 
+// c16ViaPipe: the readers take any io.Reader; when set, the bytes arrive through an OS pipe (an
+// *os.File that cannot be rewound or stat-ed for its size), as with `cat x | gofasta ... stdin`.
+var c16ViaPipe bool
+
+func c16In(data []byte) (io.Reader, func()) {
+	if !c16ViaPipe {
+		return bytes.NewReader(data), func() {}
+	}
+	pr, pw, err := os.Pipe()
+	if err != nil {
+		return bytes.NewReader(data), func() {}
+	}
+	go func() {
+		pw.Write(data)
+		pw.Close()
+	}()
+	return pr, func() { pr.Close() }
+}
+
 func c16Plain(data []byte) c16Out {
 	ch := make(chan fastaio.FastaRecord)
 	cErr := make(chan error)
 	cDone := make(chan bool)
-	go fastaio.ReadAlignment(bytes.NewReader(data), ch, cErr, cDone)
+	in, done := c16In(data)
+	defer done()
+	go fastaio.ReadAlignment(in, ch, cErr, cDone)
 	var o c16Out
 	for {
 		select {
@@ -139,10 +160,12 @@ func c16Enc(data []byte, score bool) c16Out {
 	ch := make(chan fastaio.EncodedFastaRecord)
 	cErr := make(chan error)
 	cDone := make(chan bool)
+	in, done := c16In(data)
+	defer done()
 	if score {
-		go fastaio.ReadEncodeScoreAlignment(bytes.NewReader(data), false, ch, cErr, cDone)
+		go fastaio.ReadEncodeScoreAlignment(in, false, ch, cErr, cDone)
 	} else {
-		go fastaio.ReadEncodeAlignment(bytes.NewReader(data), false, ch, cErr, cDone)
+		go fastaio.ReadEncodeAlignment(in, false, ch, cErr, cDone)
 	}
 	var o c16Out
 	for {
@@ -162,7 +185,9 @@ func c16Enc(data []byte, score bool) c16Out {
 }
 
 func c16List(data []byte) c16Out {
-	rs, err := fastaio.ReadEncodeAlignmentToList(bytes.NewReader(data), false)
+	in, done := c16In(data)
+	defer done()
+	rs, err := fastaio.ReadEncodeAlignmentToList(in, false)
 	var o c16Out
 	o.err = err
 	for _, r := range rs {
@@ -294,7 +319,12 @@ func runC16(c *fw.Ctx, idx int) fw.Result {
 				res.Fail("gap-mode", msg, nil, nil)
 			}
 		}
+		c16ViaPipe = len(data) < 1<<20 && r.Chance(0.15)
+		if c16ViaPipe {
+			res.Count("reader_batteries_fed_through_an_os_pipe", 1)
+		}
 		outs := []c16Out{c16Plain(data), c16Enc(data, false), c16Enc(data, true), c16List(data)}
+		c16ViaPipe = false
 		for ri, o := range outs {
 			if o.badCode != "" {
 				res.Fail("gap-mode:call-history", fmt.Sprintf("%s: %s (an earlier hardGaps=true read in the same process changed the result)", readers[ri], o.badCode), map[string]string{"input.fasta": clipStr(string(data), 100000)}, nil)
